@@ -59,6 +59,8 @@ pub struct Ctx {
     pub samples: Vec<Value>,
     pub violations: BTreeMap<String, Violation>,
     pub inconclusive: Vec<String>,
+    /// named sets of hashes: how many *distinct* things of a kind were observed (event orders, histories)
+    pub distinct_sets: BTreeMap<String, BTreeSet<u64>>,
     pub max_samples: usize,
     // current case (for panic attribution)
     pub cur_monitor: String,
@@ -93,6 +95,9 @@ impl Ctx {
             self.nontrivial.insert(fp.clone());
         }
         *self.fingerprints.entry(fp).or_insert(0) += 1;
+    }
+    pub fn distinct(&mut self, set: &str, what: &str) {
+        self.distinct_sets.entry(set.to_string()).or_default().insert(crate::prng::hash_str(what));
     }
     pub fn sample(&mut self, v: Value) {
         if self.samples.len() < self.max_samples {
@@ -161,6 +166,9 @@ impl Ctx {
                     self.violations.insert(k, v);
                 }
             }
+        }
+        for (k, v) in o.distinct_sets {
+            self.distinct_sets.entry(k).or_default().extend(v);
         }
         self.inconclusive.extend(o.inconclusive);
         self.budget_cut |= o.budget_cut;
